@@ -101,3 +101,16 @@ impl<F: MockFn> Answerer<F> {
         DynResponder::Answer(DynAnswerResponder(Box::new(self)))
     }
 }
+
+#[cfg(unimock_verif)]
+impl DynResponder {
+    pub(crate) fn verif_kind(&self) -> &'static str {
+        match self {
+            Self::Return(_) => "return",
+            Self::Answer(_) => "answer",
+            Self::ApplyDefaultImpl => "default",
+            Self::Unmock => "unmock",
+            Self::Panic(_) => "panic",
+        }
+    }
+}
